@@ -333,13 +333,214 @@ fn next_case(ctx: &mut Ctx, rng: &mut Rng, fmt: Fmt) -> Case {
     }
 }
 
-fn mode_oracle(ctx: &mut Ctx, args: &Args, rng: &mut Rng) {
+/// C02: enumeration of the f32 rounding boundaries: for every finite non-negative f32 `b` (or every
+/// `stride`-th), the exact decimal expansion of the midpoint between b and its upper neighbour is
+/// parsed as TIE (-> even of the two), ABOVE (expansion followed by a 1 -> upper) and BELOW
+/// (expansion*10 - 1 -> lower). Expectations are certain by construction; the oracle is consulted on
+/// a sample and on every mismatch.
+fn mode_f32_midpoints(ctx: &mut Ctx, stride: u64, shard: (u64, u64), frac_of_budget: f64) -> bool {
+    let fmt = F32;
+    let total: u64 = 0x7f80_0000; // b in [0, MAX]
+    let n = (total + stride - 1) / stride;
+    let per = (n + shard.1 - 1) / shard.1;
+    let (k0, k1) = (shard.0 * per, ((shard.0 + 1) * per).min(n));
+    let stop = ctx.rep.start + (ctx.rep.deadline - ctx.rep.start).mul_f64(frac_of_budget);
+    let mut k = k0;
+    let mut local_evals = 0u64;
+    let mut paths = [0u64; 6];
+    while k < k1 {
+        if k & 0x3ff == 0 && std::time::Instant::now() >= stop {
+            ctx.rep.evals += local_evals;
+            flush_paths(ctx, &paths);
+            return false;
+        }
+        let b = k * stride;
+        k += 1;
+        let d = oracle::upper_mid(fmt, b);
+        let (sg0, e10_0) = d.digits_exp();
+        // integers with trailing decimal zeros: write the zeros out, so that an appended digit is an epsilon
+        let mut padded: Vec<u8>;
+        let (sg, e10): (&[u8], i64) = if e10_0 > 0 {
+            padded = sg0.to_vec();
+            padded.resize(sg0.len() + e10_0 as usize, b'0');
+            (&padded, 0)
+        } else {
+            (sg0, e10_0)
+        };
+        let (m, _) = fmt.decode(b);
+        let upper = if b == fmt.max_finite_bits() { fmt.inf_bits() } else { b + 1 };
+        let even = if m & 1 == 0 { b } else { upper };
+        let nd = sg.len();
+        for variant in 0..3u32 {
+            let (digits, e, want, tag): (Vec<u8>, i64, u64, &'static str) = match variant {
+                0 => (sg.to_vec(), e10, even, "MID_TIE"),
+                1 => {
+                    let mut v = sg.to_vec();
+                    v.push(b'1');
+                    (v, e10 - 1, upper, "MID_ABOVE")
+                }
+                _ => {
+                    // expansion * 10 - 1: decrement with borrow, then a nine
+                    let mut v = sg.to_vec();
+                    let mut i = nd;
+                    loop {
+                        i -= 1;
+                        if v[i] == b'0' {
+                            v[i] = b'9';
+                        } else {
+                            v[i] -= 1;
+                            break;
+                        }
+                    }
+                    v.push(b'9');
+                    let lz = v.iter().take_while(|&&c| c == b'0').count();
+                    (v[lz..].to_vec(), e10 - 1, b, "MID_BELOW")
+                }
+            };
+            // deterministic layout rotation
+            let lay = (k + variant as u64) % 3;
+            let c = match gen::place(&digits, e, lay, (k % 4) as usize, 1 + (k % 7) as usize, tag) {
+                Some(c) => c,
+                None => continue,
+            };
+            sink::reset();
+            let got = mlverif::parse_case(fmt, &c);
+            local_evals += 1;
+            let p = sink::path();
+            let pi = if p.fast { 0 } else if p.slow_neg { 1 } else if p.slow_pos { 2 } else if p.moderate { 3 } else { 4 };
+            paths[pi] += 1;
+            if p.slow_digits == 115 {
+                paths[5] += 1;
+            }
+            let sampled = (k & 0xfff) == 1;
+            if got != want || sampled {
+                // full oracle flow (also produces the replay file); by-construction and oracle must agree
+                let before = ctx.rep.nviol;
+                let held = ctx.judge(fmt, &c);
+                ctx.rep.count("midpoints.oracle_consulted");
+                if got != want && held && ctx.rep.nviol == before {
+                    ctx.rep.inconclusive(&format!("GENERATOR-ERROR: by-construction expectation {} for {} {} disagrees with the oracle", bits_hex(fmt, want), tag, c.show()));
+                }
+            }
+        }
+        ctx.rep.distinct(b | 1 << 40);
+    }
+    ctx.rep.evals += local_evals;
+    ctx.rep.add("midpoints.enumerated", k1 - k0);
+    flush_paths(ctx, &paths);
+    true
+}
+
+fn flush_paths(ctx: &mut Ctx, paths: &[u64; 6]) {
+    for (i, k) in ["midpoints.path.fast", "midpoints.path.slow_neg", "midpoints.path.slow_pos", "midpoints.path.moderate", "midpoints.path.other", "midpoints.sticky_digit"].iter().enumerate() {
+        ctx.rep.add(k, paths[i]);
+    }
+}
+
+/// The third-party corpus shipped in etc/correctness (lines: f16 f32 f64 string): crate, oracle and the
+/// file's expectation are three independent authorities that must agree.
+fn shipped_corpus(ctx: &mut Ctx, dir: &str, fmt: Fmt) {
+    let mut files: Vec<std::path::PathBuf> = match std::fs::read_dir(dir) {
+        Ok(rd) => rd.filter_map(|e| e.ok().map(|e| e.path())).filter(|p| p.extension().map_or(false, |x| x == "txt")).collect(),
+        Err(_) => return,
+    };
+    files.sort();
+    for f in files {
+        let txt = match std::fs::read_to_string(&f) {
+            Ok(t) => t,
+            Err(_) => continue,
+        };
+        for line in txt.lines() {
+            let p: Vec<&str> = line.split_whitespace().collect();
+            if p.len() != 4 {
+                continue;
+            }
+            let want = match u64::from_str_radix(if fmt.mant_bits == 52 { p[2] } else { p[1] }, 16) {
+                Ok(v) => v,
+                Err(_) => continue,
+            };
+            // plain decimal literals only: [+-]? digits [. digits] [e [+-] digits]
+            let b = p[3].as_bytes();
+            let mut i = 0;
+            let neg = b.first() == Some(&b'-');
+            if b.first() == Some(&b'+') || neg {
+                i += 1;
+            }
+            let st = i;
+            while i < b.len() && b[i].is_ascii_digit() {
+                i += 1;
+            }
+            let int = &b[st..i];
+            let mut frac: &[u8] = &[];
+            if i < b.len() && b[i] == b'.' {
+                i += 1;
+                let fs = i;
+                while i < b.len() && b[i].is_ascii_digit() {
+                    i += 1;
+                }
+                frac = &b[fs..i];
+            }
+            let mut exp: i64 = 0;
+            if i < b.len() && (b[i] == b'e' || b[i] == b'E') {
+                i += 1;
+                let mut eneg = false;
+                if i < b.len() && (b[i] == b'+' || b[i] == b'-') {
+                    eneg = b[i] == b'-';
+                    i += 1;
+                }
+                let es = i;
+                while i < b.len() && b[i].is_ascii_digit() {
+                    exp = (exp * 10 + (b[i] - b'0') as i64).min(1 << 40);
+                    i += 1;
+                }
+                if es == i {
+                    continue;
+                }
+                if eneg {
+                    exp = -exp;
+                }
+            }
+            if i != b.len() || (int.is_empty() && frac.is_empty()) || neg || exp.abs() > i32::MAX as i64 {
+                continue;
+            }
+            let lz = int.iter().take_while(|&&c| c == b'0').count();
+            let c = Case::new(&int[lz..], frac, exp as i32, "SHIPPED_CORPUS");
+            let before = ctx.rep.nviol;
+            let held = ctx.judge(fmt, &c);
+            ctx.rep.count("corpus.shipped_lines");
+            if held && ctx.rep.nviol == before {
+                // crate == oracle; the file must say the same
+                let got = parse_case(fmt, &c);
+                if got != want {
+                    ctx.rep.inconclusive(&format!("ORACLE-DISAGREEMENT: shipped corpus expects {} for {} {}, oracle and crate say {}", bits_hex(fmt, want), fmt.name, p[3], bits_hex(fmt, got)));
+                }
+            }
+        }
+    }
+}
+
+fn mode_oracle(ctx: &mut Ctx, args: &Args, rng: &mut Rng, shard: (u64, u64)) {
     let fmts: Vec<Fmt> = match ctx.prop.as_str() {
         "C01" => vec![F64],
         "C02" => vec![F32],
         _ => vec![F64, F32],
     };
     let max = args.u64("max-evals", u64::MAX);
+    if shard.0 == 0 && (ctx.prop == "C01" || ctx.prop == "C02") {
+        if let Some(dir) = args.get("shipped-corpus") {
+            let dir = dir.to_string();
+            shipped_corpus(ctx, &dir, fmts[0]);
+        }
+    }
+    if ctx.prop == "C02" {
+        if let Some(st) = args.get("midpoints") {
+            let stride: u64 = st.parse().expect("--midpoints <stride>");
+            let frac = args.f64("midpoints-budget", 0.5);
+            let done = mode_f32_midpoints(ctx, stride, shard, frac);
+            ctx.rep.extra.insert("f32_midpoint_stride".into(), format!("{}", stride));
+            ctx.rep.extra.insert("f32_midpoint_range_completed".into(), format!("{}", done));
+        }
+    }
     let mut i = 0u64;
     while ctx.rep.evals < max {
         if i % 64 == 0 && ctx.rep.out_of_time() {
@@ -691,10 +892,46 @@ fn mode_monotonic(ctx: &mut Ctx, _args: &Args, rng: &mut Rng) {
         }
         i += 1;
         let fmt = if i % 2 == 0 { F64 } else { F32 };
-        let kind = rng.below(10);
+        let kind = rng.below(11);
         let mut cluster: Vec<Case> = Vec::new();
         let mut presorted = false;
         match kind {
+            10 => {
+                // a 19-digit exact tie (or near-tie), its neighbours w-1 / w+1, each in several spellings
+                // (short, padded beyond 19 digits so that the truncating route is taken, fraction-only)
+                let c0 = gen::g5(rng, fmt);
+                let d = c0.dec();
+                if d.is_zero() {
+                    continue;
+                }
+                let (sig, e10) = d.digits_exp();
+                if sig.len() > 19 {
+                    continue;
+                }
+                let w0: u64 = std::str::from_utf8(sig).unwrap().parse().unwrap();
+                for dw in [-1i64, 0, 0, 0, 1] {
+                    let w = (w0 as i128 + dw as i128).clamp(1, u64::MAX as i128) as u64;
+                    let mut s2 = w.to_string().into_bytes();
+                    let mut e = e10;
+                    match rng.below(3) {
+                        0 => {}
+                        1 => {
+                            let z = rng.range(1, 30) as usize;
+                            s2.resize(s2.len() + z, b'0');
+                            e -= z as i64;
+                        }
+                        _ => {
+                            let z = (20usize.saturating_sub(s2.len())) + rng.below(3) as usize;
+                            s2.resize(s2.len() + z, b'0');
+                            e -= z as i64;
+                        }
+                    }
+                    if let Some(c) = gen::place_random(rng, &s2, e, "TIE_SPELLING") {
+                        cluster.push(c);
+                    }
+                }
+                ctx.rep.count("cluster.tie_spellings");
+            }
             0 | 1 | 2 => {
                 // variants around one boundary
                 let bits = gen::pick_float(rng, fmt);
@@ -895,7 +1132,7 @@ fn mode_monotonic(ctx: &mut Ctx, _args: &Args, rng: &mut Rng) {
             prev = Some((bits, p, idx));
         }
     }
-    for k in ["pairs.compared", "pairs.across_tiers", "pairs.strict_increase", "cluster.boundary", "cluster.w_run", "cluster.q_run", "cluster.depth", "cluster.adjacent_floats"] {
+    for k in ["pairs.compared", "pairs.across_tiers", "pairs.strict_increase", "pairs.equal_value", "cluster.boundary", "cluster.w_run", "cluster.q_run", "cluster.depth", "cluster.adjacent_floats", "cluster.tie_spellings"] {
         ctx.rep.require(k);
     }
 }
@@ -1122,7 +1359,7 @@ fn main() {
     }
 
     match prop.as_str() {
-        "C01" | "C02" | "C06" | "C07" => mode_oracle(&mut ctx, &args, &mut rng),
+        "C01" | "C02" | "C06" | "C07" => mode_oracle(&mut ctx, &args, &mut rng, shard),
         "C03" => mode_roundtrip(&mut ctx, &args, &mut rng, shard),
         "C04" => mode_nopanic(&mut ctx, &args, &mut rng, shard),
         "C09" => mode_monotonic(&mut ctx, &args, &mut rng),
